@@ -94,7 +94,7 @@ def add_num_mans(spec):
             t += dur
         else:
             which = r.choice(["a", "i", "O", "ai", "aiO"])  # at least one non-zero increment (all-zero increments are outside C17's quantifier: 0 / 0)
-            mans.append({"type": "kep", "off_s": round(t, 0), "da": r.uniform(-5e3, 5e3) if "a" in which else 0.0, "di": r.uniform(-1e-3, 1e-3) if "i" in which else 0.0, "dOmega": r.uniform(-1e-3, 1e-3) if "O" in which else 0.0})
+            mans.append({"type": "kep", "off_s": round(t, 0), "da": r.choice([r.uniform(-5e3, 5e3), r.uniform(-20, 20), r.uniform(-2, 2)]) if "a" in which else 0.0, "di": r.uniform(-1e-3, 1e-3) if "i" in which else 0.0, "dOmega": r.uniform(-1e-3, 1e-3) if "O" in which else 0.0})
     spec["mans"] = mans
     return spec
 
